@@ -78,6 +78,10 @@ def shapes(tier):
                 seg([dm.Chan(P1, [S(0, 0, 0, 12, True)], 3), dm.Chan(P2, [S(0, 0, 0, 5, True)], 3)], [2], 2, False)])
     out.append([seg([dm.Chan(P1, [S(0, 3, 0, 0)], 2), dm.Chan(P2, [S(0, 3, 1, 0)], 2)], [2, 4], 1, False),
                 seg([dm.Chan(P1, [S(0, 3, 1, 2)], 2), dm.Chan(P2, [S(0, 3, 0, 0)], 2)], [2, 4], 2, False)])
+    # metadata lists a channel of raw buffer 1 before the channel of raw buffer 0; the buffers have different row counts and widths
+    for big in (False, True):
+        for w0, w1, n0, n1 in ((8, 2, 2, 3), (2, 6, 3, 1), (4, 4, 1, 3)):
+            out.append([seg([dm.Chan(P1, [S(0, 3, 1, w1 - 2)], n1), dm.Chan(P2, [S(0, 3, 0, min(1, w0 - 2))], n0)], [w0, w1], 2, big)])
     if tier == 'thorough':
         for big in (False, True):
             for t0 in range(10):
